@@ -70,7 +70,9 @@ func (s *vShard) get(url string, ret interface{}) error {
 		if eq {
 			c.ConfigHash = vCfgHash
 		} else {
-			c.ConfigHash = "HASH-OTHER"
+			// a sidecar that runs another configuration reports its hash; one that has not loaded
+			// any configuration yet reports the empty string
+			c.ConfigHash = zzv.Str(s.name+".otherhash", "HASH-OTHER", "")
 		}
 		*r = &c
 		return nil
